@@ -1,10 +1,10 @@
 package props
 
 import (
-	goat "github.com/avos-io/goat"
 	"context"
 	"errors"
 	"fmt"
+	goat "github.com/avos-io/goat"
 	"io"
 	"strings"
 
